@@ -79,7 +79,8 @@ def run_unit(u, tier, workdir, prop):
         res = {"unit": u["name"], "backend": "witness", "cmd": w["cmd"], "wall": 0.0, "smt_ms": 0, "assumed": u.get("assumed", []), "dropped": [], "rule_uses": {},
                "obligations": [{"name": f"{u['name']}/witness-search", "backend": "cargo test (executable postcondition on the real code)", "ok": ok, "us": 0,
                                 "bounded": u.get("witness_bound", f"{w['cases']} cases"), "kind": "bounded"}],
-               "failures": [], "functions_under_contract": u.get("functions", []), "canary": {"cases": w["cases"]}, "assumption_scan": {}, "items": [u["witness_target"]]}
+               "failures": [], "functions_under_contract": u.get("functions", []), "canary": {"cases": w["cases"]}, "assumption_scan": {}, "items": [u["witness_target"]],
+               "explore": {"cases": w["cases"], "distinct": w.get("distinct"), "samples": w.get("samples", []), "rule": u.get("witness_rule", u.get("witness_bound", ""))}}
         for f0 in w["fails"][:60]:
             res["failures"].append({"obligation": f"{u['name']}/{f0.get('fn', '?')}", "clause": f0.get("clause", ""), "msg": "bounded search on the real code found a failing input",
                                     "raw": json.dumps(f0), "unit": u["name"], "fn": f0.get("fn"), "input": {"failing_inputs": [f0], "cases_tried": w["cases"]}})
@@ -184,6 +185,17 @@ def decide(prop, tier, seed):
         "violations": len(violations),
         "undecided_units": undecided,
     }
+    if units and all(u["backend"] == "witness" for u in units):
+        # a property served only by bounded executable checks: exploration-level evidence (nothing is counted as proved)
+        ex = [r.get("explore", {}) for r in results]
+        ev["level"] = "exploration"
+        ev["coverage"].update({
+            "evaluations": sum(e.get("cases") or 0 for e in ex),
+            "distinct_nontrivial": sum(e.get("distinct") or 0 for e in ex),
+            "rule": " | ".join(e.get("rule", "") for e in ex),
+            "samples": [smp for e in ex for smp in e.get("samples", [])][:40] or samples[:5],
+            "exhaustive": False,
+        })
     os.makedirs(os.path.join(OUT, "evidence"), exist_ok=True)
     with open(os.path.join(OUT, "evidence", prop + ".json"), "w") as f:
         json.dump(ev, f, indent=1)
